@@ -6,6 +6,8 @@
 //     (a `for ... Length() > 0 { ... PopMultiple(k) ... }` loop) and with which k,
 //   - the key source of every case clause of the type switch in internalEventToKafkaEvent
 //     (none / e.Taskid / extractAndConvertEnvID(e)).
+//   - (common/event/fifobuffer.go) whether ReleaseGoroutines sets a flag before its Broadcast that
+//     PopMultiple tests, inside its empty-buffer loop and before cond.Wait, to return at once,
 // It also checks the skeleton the model takes for granted (batchingLoop: range over the channel,
 // Push, send on the done channel, ReleaseGoroutines, Done — in this order; Close: Add(2), close of
 // the channel, Wait — in this order) and fails when it is not found.
@@ -356,14 +358,17 @@ func eventWriter() string {
 		die("eventwriter: extractAndConvertEnvID does not read GetEnvironmentId()")
 	}
 
+	sticky := ewReleaseSticky()
+
 	var b strings.Builder
-	b.WriteString("(* regenerated on every run by harness/cmd/translate (eventwriter) from\n   common/event/writer.go *)\n")
+	b.WriteString("(* regenerated on every run by harness/cmd/translate (eventwriter) from\n   common/event/writer.go and common/event/fifobuffer.go *)\n")
 	b.WriteString("From Verif Require Import Common.\nOpen Scope N_scope.\n")
 	fmt.Fprintf(&b, "Definition ew_chan_cap : N := %d.          (* cap(toBatchMessagesChan) *)\n", chanCap)
 	fmt.Fprintf(&b, "Definition ew_done_cap : N := %d.          (* cap(batchingLoopDoneCh) *)\n", doneCap)
 	fmt.Fprintf(&b, "Definition ew_batch_max : N := %d.         (* PopMultiple argument, default branch *)\n", batchMax)
 	fmt.Fprintf(&b, "Definition ew_drain_on_done : bool := %v.  (* done branch drains the buffer before returning *)\n", drain)
 	fmt.Fprintf(&b, "Definition ew_drain_batch_max : N := %d.   (* PopMultiple argument, drain loop *)\n", drainMax)
+	fmt.Fprintf(&b, "Definition ew_release_sticky : bool := %v. (* ReleaseGoroutines sets a flag, before Broadcast, on which PopMultiple returns instead of waiting *)\n", sticky)
 	b.WriteString("(* key source per case of the type switch in internalEventToKafkaEvent:\n   0 = no key, 1 = e.Taskid, 2 = extractAndConvertEnvID(e).  Kinds: ")
 	for i, k := range ewKinds {
 		fmt.Fprintf(&b, "%d=%s ", i, k)
@@ -395,4 +400,94 @@ func ewFindGo(n ast.Node, name string) []*ast.GoStmt {
 		return true
 	})
 	return out
+}
+
+// method of the generic type FifoBuffer[T]
+func ewFifoMethod(f *ast.File, name string) *ast.FuncDecl {
+	for _, d := range f.Decls {
+		fd, ok := d.(*ast.FuncDecl)
+		if !ok || fd.Name.Name != name || fd.Recv == nil || len(fd.Recv.List) != 1 {
+			continue
+		}
+		t := fd.Recv.List[0].Type
+		if st, ok := t.(*ast.StarExpr); ok {
+			t = st.X
+		}
+		if ix, ok := t.(*ast.IndexExpr); ok {
+			t = ix.X
+		}
+		if id, ok := t.(*ast.Ident); ok && id.Name == "FifoBuffer" {
+			return fd
+		}
+	}
+	return nil
+}
+
+// ewReleaseSticky: ReleaseGoroutines does `<recv>.<flag> = true` before Broadcast(), and the
+// `for len(buffer) == 0` loop of PopMultiple starts (before cond.Wait()) with
+// `if <recv>.<flag> { return }`.  The skeleton of both functions (Broadcast present, Wait inside
+// the loop) is required; the flag is reported as present or absent.
+func ewReleaseSticky() bool {
+	_, f := parseFile("common/event/fifobuffer.go")
+	rg := ewFifoMethod(f, "ReleaseGoroutines")
+	pm := ewFifoMethod(f, "PopMultiple")
+	if rg == nil || pm == nil {
+		die("eventwriter: FifoBuffer.ReleaseGoroutines / PopMultiple not found")
+	}
+	flag := ""
+	sawBroadcast := false
+	for _, st := range rg.Body.List {
+		switch v := st.(type) {
+		case *ast.AssignStmt:
+			if len(v.Lhs) == 1 && len(v.Rhs) == 1 && !sawBroadcast {
+				if sel, ok := v.Lhs[0].(*ast.SelectorExpr); ok {
+					if id, ok := v.Rhs[0].(*ast.Ident); ok && id.Name == "true" {
+						flag = sel.Sel.Name
+					}
+				}
+			}
+		case *ast.ExprStmt:
+			if c, ok := v.X.(*ast.CallExpr); ok && ewCallName(c) == "Broadcast" {
+				sawBroadcast = true
+			}
+		}
+	}
+	if !sawBroadcast {
+		die("eventwriter: ReleaseGoroutines does not Broadcast")
+	}
+	// the waiting loop of PopMultiple
+	var loop *ast.ForStmt
+	ast.Inspect(pm, func(x ast.Node) bool {
+		if fs, ok := x.(*ast.ForStmt); ok && loop == nil && len(ewFindCalls(fs.Body, "Wait")) == 1 {
+			loop = fs
+		}
+		return loop == nil
+	})
+	if loop == nil {
+		die("eventwriter: PopMultiple has no loop around cond.Wait()")
+	}
+	if flag == "" {
+		return false
+	}
+	for _, st := range loop.Body.List {
+		if es, ok := st.(*ast.ExprStmt); ok {
+			if c, ok := es.X.(*ast.CallExpr); ok && ewCallName(c) == "Wait" {
+				return false // Wait comes first
+			}
+		}
+		is, ok := st.(*ast.IfStmt)
+		if !ok || is.Init != nil || is.Else != nil {
+			continue
+		}
+		sel, ok := is.Cond.(*ast.SelectorExpr)
+		if !ok || sel.Sel.Name != flag {
+			continue
+		}
+		for _, bs := range is.Body.List {
+			if _, ok := bs.(*ast.ReturnStmt); ok {
+				return true
+			}
+		}
+	}
+	return false
 }
